@@ -226,7 +226,7 @@ def _part(S, r, i):
 def _filtered(S, lst, C, upto):
     """lst is the increasing list of the indices i < upto with C[i]."""
     return S.and_(S.len(lst) == S.cnt(C, upto),
-                  S.forall(0, upto, lambda i: S.implies(C[i], lambda: lst[S.cnt(C, i)] == i)))
+                  lambda: S.forall(0, upto, lambda i: S.implies(C[i], lambda: lst[S.cnt(C, i)] == i)))
 
 
 def _em_ensures(S, a, r, post):
